@@ -146,20 +146,20 @@ CLAIMED = {
         technique='Coq proof for the symbol layer (composition of C06/C07/C08/RS weight 0, all inputs); data layer: per-case round trip on model-tied implementation runs'),
     'C03': dict(
         category='fault_enumeration',
-        text='What is a theorem (Coq, axiom-free): C03_weight0 -- every codeword vector of every size passes the error decoder unchanged; '
-             'C03_success_is_codeword -- for ANY number of errors a successful result is a codeword (no half-corrected output, from C09); '
-             'C03_bch_bound / C03_min_distance / C03_unique_within_radius -- the BCH bound for the code of the standard: codeword blocks differing in '
-             'at most k positions are equal, so within distance floor(k/2) of any received block there is at most one codeword (the mathematical '
-             'content of "guaranteed capacity"; all block lengths are <= 255, C03_block_lengths). '
-             'What is NOT a theorem: completeness for weights 1..floor(k/2) (correctness of the Levinson-Durbin recursion with singular-case '
-             'step and of the Bjoerck-Pereyra solver; no formalisation exists, out of reach here) and uniqueness of the result within the '
-             'radius. The property is therefore decided by fault enumeration on the implementation, tied to the Coq model of the decoder by '
+        text='Theorems (Coq, axiom-free): C03_no_miscorrection -- for every size, every codeword and EVERY error pattern with at most floor(k/2) '
+             'wrong codewords per block: if the decoder reports success, the word it leaves is exactly the transmitted codeword (proof: the '
+             'Levinson-Durbin locator has at most floor(k/2) roots -- C03_locator_bound, from the loop guard and the asserted length only --, '
+             'step 4 alters one position per root, success implies codeword (C09), and the BCH bound C03_bch_bound / C03_min_distance / '
+             'C03_unique_within_radius: at most one codeword within floor(k/2) of any word; all blocks have length <= 255). C03_weight0; '
+             'C03_success_is_codeword. What is NOT a theorem is completeness: that within the radius the decoder always DOES report success '
+             '(correctness of the Levinson-Durbin recursion with singular-case step and of the Bjoerck-Pereyra solver; no formalisation exists, '
+             'out of reach here). That half is decided by fault enumeration on the implementation, tied to the Coq model of the decoder by '
              'correspondence on the same cases: all 48 sizes, a random codeword, error patterns of weight 0..t in every block (data region, EC '
              'region, both, first and last codeword of each block, all blocks at full weight), every single position, and the same damage as '
              'flipped modules through DataMatrix::decode. The index-mapping defect of multi-block sizes was repaired (fix: commit).',
         design_ref='DESIGN.md 6/C03',
-        note='Level: fault enumeration with a correspondence-tied model; the two Coq theorems cover weight 0 and the shape of success only. No axioms.',
-        technique='fault enumeration over weights 0..t per block on all sizes + Coq theorems for weight 0 and success-implies-codeword'),
+        note='Soundness within the radius is a theorem; completeness is fault enumeration with a correspondence-tied model (hence the declared level). No axioms.',
+        technique='Coq proof of no-miscorrection within the radius (BCH bound + locator length bound + C09); completeness by fault enumeration over weights 0..t per block on all sizes'),
     'C16': dict(
         text='Theorems (Coq, axiom-free), for every input, symbol list, mode set, ECI option and EVERY planner (the optimiser is a parameter of '
              'the model): C16_first_codeword -- whenever the encoder returns a stream its first codeword is 236 if and only if macros are '
